@@ -798,7 +798,9 @@ class Scores:
         # happens only if all samples are incorrectly classified, i.e., EER=1.0. With
         # easy samples, we have to interpolate at the edge of where hard samples stop.
         if f(max_eer) < 0:
-            if np.isclose(self.hard_pos_ratio, self.hard_neg_ratio):
+            # Relative comparison only: with very many easy samples both ratios are tiny
+            # and an absolute tolerance would call any two of them equal.
+            if np.isclose(self.hard_pos_ratio, self.hard_neg_ratio, atol=0.0):
                 threshold = (
                     self.threshold_at_fpr(max_eer) + self.threshold_at_fnr(max_eer)
                 ) / 2
